@@ -191,7 +191,7 @@ def check_state(ck):
     zoo = wfzoo.obc_wfs(ck.rng, which="all" if ck.thorough else "few", jax=ck.thorough)
     if not ck.thorough:
         allw = wfzoo.obc_wfs(ck.rng, which="all", jax=True)
-        pick = {"slater_uhf_triplet*jastrow", "multislater_casci*jastrow", "add(sj,sj3)complexcoef", "jax_slater"}
+        pick = {"slater_uhf_triplet*jastrow", "multislater_casci*jastrow", "add(sj,sj3)complexcoef", "jax_slater", "jax_jastrow"}
         zoo = [z for z in zoo if z[0] in ("slater*jastrow*threebody", "jastrow")] + [z for z in allw if z[0] in pick]
     zoo += wfzoo.pbc_wfs(ck.rng, which="all")[: (3 if ck.thorough else 2)]
     zoo += wfzoo.ecp_wfs(ck.rng, periodic=True)
